@@ -35,7 +35,7 @@ Print Assumptions c09_gateway_as.
    sampling_rate, in_if, out_if, packets = 1, bytes = the sampled frame's length, and on top of these exactly
    the columns of the dissected frame (MACs, ethertype, VLAN, MPLS, addresses, protocol, TOS, TTL, flow label,
    fragment fields, ports, TCP flags, ICMP type/code, SRv6 segments, layer stack and sizes) -- `framed`.
-   The record's XDR padding behind the captured bytes does not disturb the dissection. *)
+   The record's XDR padding behind the captured bytes is not part of the header (c09_header_is_the_captured_bytes). *)
 Theorem c09_raw_header_flow_sample : forall f hdr rate pool drops inif outif flen stripped,
   wf_frame f = true ->
   exists m,
